@@ -121,43 +121,62 @@ fn script_names(s: &Script) -> Vec<String> {
     s.iter().map(|x| x.name()).collect()
 }
 
-/// every script with <= max_ops data statements: autocommit statements and at most one transaction block
-/// of 1..=max_txn data statements (read-only blocks end with COMMIT only); fewest statements first
-fn gen_scripts(alphabet: &[Op], max_ops: usize, max_txn: usize) -> Vec<Script> {
-    let mut out: Vec<Script> = vec![];
-    // sequences of ops
-    let mut seqs: Vec<Vec<Op>> = vec![vec![]];
-    let mut frontier: Vec<Vec<Op>> = vec![vec![]];
-    for _ in 0..max_ops {
-        let mut next = vec![];
-        for s in &frontier {
-            for &o in alphabet {
-                let mut s2 = s.clone();
-                s2.push(o);
-                next.push(s2);
-            }
+/// every well-formed script of <= max_len statements (one statement = one execute call): autocommit data
+/// statements and at most one transaction (BEGIN, >= 1 data statements, optionally COMMIT | ROLLBACK —
+/// read-only blocks end with COMMIT only).  A script may end with its transaction still open: the handle
+/// is then dropped at the end of the merge (implicit rollback).  Fewest statements first.
+fn gen_scripts(alphabet: &[Op], max_len: usize) -> Vec<Script> {
+    fn rec(alphabet: &[Op], max_len: usize, cur: &mut Script, in_txn: Option<usize>, had_txn: bool, out: &mut Vec<Script>) {
+        if !cur.is_empty() && cur.last() != Some(&St::Begin) {
+            out.push(cur.clone());
         }
-        seqs.extend(next.iter().cloned());
-        frontier = next;
-    }
-    for ops in seqs.iter().filter(|s| !s.is_empty()) {
-        let n = ops.len();
-        out.push(ops.iter().map(|o| St::Op(*o)).collect());
-        for start in 0..n {
-            for len in 1..=max_txn.min(n - start) {
-                let block = &ops[start..start + len];
-                let ends: &[St] = if block.iter().any(|o| o.is_write()) { &[St::Commit, St::Rollback] } else { &[St::Commit] };
-                for &end in ends {
-                    let mut s: Script = ops[..start].iter().map(|o| St::Op(*o)).collect();
-                    s.push(St::Begin);
-                    s.extend(block.iter().map(|o| St::Op(*o)));
-                    s.push(end);
-                    s.extend(ops[start + len..].iter().map(|o| St::Op(*o)));
-                    out.push(s);
+        if cur.len() == max_len {
+            return;
+        }
+        for &o in alphabet {
+            cur.push(St::Op(o));
+            rec(alphabet, max_len, cur, in_txn, had_txn, out);
+            cur.pop();
+        }
+        match in_txn {
+            None => {
+                if !had_txn {
+                    cur.push(St::Begin);
+                    rec(alphabet, max_len, cur, Some(cur.len()), true, out);
+                    cur.pop();
+                }
+            }
+            Some(start) => {
+                if cur.len() > start {
+                    let wrote = cur[start..].iter().any(|x| matches!(x, St::Op(o) if o.is_write()));
+                    let ends: &[St] = if wrote { &[St::Commit, St::Rollback] } else { &[St::Commit] };
+                    for &e in ends {
+                        cur.push(e);
+                        rec(alphabet, max_len, cur, None, true, out);
+                        cur.pop();
+                    }
                 }
             }
         }
     }
+    let mut out = vec![];
+    rec(alphabet, max_len, &mut vec![], None, false, &mut out);
+    // a handle never addresses a row it deleted itself (UPDATE / DELETE of a tombstoned row are C05 findings)
+    out.retain(|s| {
+        let mut dead: BTreeSet<i64> = BTreeSet::new();
+        for st in s {
+            if let St::Op(op) = st {
+                match op {
+                    Op::Del(k) | Op::Upd(k) if dead.contains(&(*k as i64)) => return false,
+                    Op::Del(k) => {
+                        dead.insert(*k as i64);
+                    }
+                    _ => {}
+                }
+            }
+        }
+        true
+    });
     out.sort_by(|a, b| (a.len(), a).cmp(&(b.len(), b)));
     out.dedup();
     out
@@ -218,6 +237,8 @@ struct Model {
     writes: Vec<WriteRec>,
     /// every value a key ever had in the committed store, oldest first (None = absent)
     history: BTreeMap<i64, Vec<Option<i64>>>,
+    /// keys whose row currently is a tombstone in the table (deleted by anyone, committed or not): index into writes
+    tomb: BTreeMap<i64, usize>,
 }
 const KEYS: [i64; 2] = [1, 2];
 impl Model {
@@ -226,7 +247,7 @@ impl Model {
         let mut history = BTreeMap::new();
         history.insert(1, vec![Some(10)]);
         history.insert(2, vec![None]);
-        Model { committed, open: vec![None; handles], done: vec![], writes: vec![], history }
+        Model { committed, open: vec![None; handles], done: vec![], writes: vec![], history, tomb: BTreeMap::new() }
     }
     fn view(&self, h: usize) -> &View {
         match &self.open[h] {
@@ -491,6 +512,7 @@ fn run_merge(base: &std::path::Path, case: &Case, plant: Plant) -> Result<MergeO
                 if let Some(t) = m.open[h].take() {
                     for i in t.writes {
                         m.writes[i].status = Status::RolledBack;
+                        m.tomb.retain(|_, wi| *wi != i);
                     }
                 }
             }
@@ -570,6 +592,11 @@ fn run_merge(base: &std::path::Path, case: &Case, plant: Plant) -> Result<MergeO
                 let k = op.key().unwrap();
                 let val = value_of(h, j);
                 let view = m.view(h).clone();
+                if matches!(op, Op::Upd(_) | Op::Del(_)) && m.tomb.contains_key(&k) {
+                    // UPDATE / DELETE match tombstoned rows (C05 findings): not this property's business
+                    out.stopped = Some((step, "statement addresses a tombstoned row (C05 findings): merge not judged further".into()));
+                    return Ok(out);
+                }
                 let (want, effect) = write_in(&view, op, val);
                 let got: Option<usize> = match &r {
                     Res::Affected(n, _) => Some(*n),
@@ -609,6 +636,9 @@ fn run_merge(base: &std::path::Path, case: &Case, plant: Plant) -> Result<MergeO
                     let status = if m.open[h].is_some() { Status::Open } else { Status::Auto };
                     m.writes.push(WriteRec { handle: h, op, key: k, val: v, status });
                     let wi = m.writes.len() - 1;
+                    if v.is_none() {
+                        m.tomb.insert(k, wi);
+                    }
                     match m.open[h].as_mut() {
                         Some(t) => {
                             match v {
@@ -628,6 +658,19 @@ fn run_merge(base: &std::path::Path, case: &Case, plant: Plant) -> Result<MergeO
                         }
                     }
                 }
+            }
+        }
+    }
+    // scripts that end inside their transaction: the handle is dropped with the transaction open (implicit
+    // rollback; its correctness as such is C07's business)
+    if let Err(p) = vcore::catch(move || drop(handles)) {
+        out.stopped = Some((case.order.len(), format!("dropping the handles panicked: {p}")));
+        return Ok(out);
+    }
+    for h in 0..hn {
+        if let Some(t) = m.open[h].take() {
+            for i in t.writes {
+                m.writes[i].status = Status::RolledBack;
             }
         }
     }
@@ -661,7 +704,6 @@ fn run_merge(base: &std::path::Path, case: &Case, plant: Plant) -> Result<MergeO
             }
         }
     }
-    drop(handles);
     drop(fin);
     Ok(out)
 }
@@ -704,25 +746,69 @@ struct Pass {
     name: &'static str,
     handles: usize,
     alphabet: Vec<Op>,
-    max_ops: usize,
-    max_txn: usize,
+    /// statements per handle script (BEGIN / COMMIT / ROLLBACK count)
+    max_len: usize,
+    /// bound on the statements of all handles together
+    max_total: usize,
+    /// longest autocommit-only script combined with a script that runs a transaction
+    auto_len_mixed: usize,
+    /// longest scripts of a tuple in which no handle runs a transaction
+    auto_len_all: usize,
+}
+impl Pass {
+    /// is this tuple of scripts part of the pass?
+    fn admits(&self, ss: &[&Script]) -> bool {
+        let total: usize = ss.iter().map(|s| s.len()).sum();
+        if total > self.max_total {
+            return false;
+        }
+        let txn = |s: &Script| s.contains(&St::Begin);
+        let any_txn = ss.iter().any(|s| txn(s));
+        ss.iter().all(|s| txn(s) || s.len() <= if any_txn { self.auto_len_mixed } else { self.auto_len_all })
+    }
+    fn tuples(&self, scripts: &[Script]) -> Vec<Vec<usize>> {
+        let n = scripts.len();
+        let mut tuples: Vec<Vec<usize>> = vec![];
+        if self.handles == 2 {
+            for i in 0..n {
+                for j in i..n {
+                    if self.admits(&[&scripts[i], &scripts[j]]) {
+                        tuples.push(vec![i, j]);
+                    }
+                }
+            }
+        } else {
+            for i in 0..n {
+                for j in i..n {
+                    for k in j..n {
+                        if self.admits(&[&scripts[i], &scripts[j], &scripts[k]]) {
+                            tuples.push(vec![i, j, k]);
+                        }
+                    }
+                }
+            }
+        }
+        // fewest statements first
+        tuples.sort_by_key(|t| (t.iter().map(|&i| scripts[i].len()).sum::<usize>(), t.clone()));
+        tuples
+    }
 }
 fn passes(ctx: &Ctx) -> Vec<Pass> {
     let core = vec![Op::Ins(2), Op::Upd(1), Op::Del(1), Op::Scan];
-    let point = vec![Op::Ins(2), Op::Upd(1), Op::Del(1), Op::Get(1)];
-    let wide = vec![Op::Ins(2), Op::Upd(1), Op::Del(1), Op::Ins(1), Op::Upd(2), Op::Del(2), Op::Scan, Op::Get(1)];
+    let point = vec![Op::Upd(1), Op::Del(1), Op::Get(1)];
+    let wide = vec![Op::Ins(2), Op::Upd(1), Op::Del(1), Op::Ins(1), Op::Upd(2), Op::Del(2), Op::Scan, Op::Get(1), Op::Get(2)];
     if ctx.quick() {
         vec![
-            Pass { name: "2h-core", handles: 2, alphabet: core, max_ops: 2, max_txn: 2 },
-            Pass { name: "2h-point", handles: 2, alphabet: point, max_ops: 2, max_txn: 2 },
-            Pass { name: "2h-wide-1op", handles: 2, alphabet: wide, max_ops: 1, max_txn: 1 },
+            Pass { name: "2h-core-len3", handles: 2, alphabet: core, max_len: 3, max_total: 6, auto_len_mixed: 2, auto_len_all: 2 },
+            Pass { name: "2h-point-len3", handles: 2, alphabet: point, max_len: 3, max_total: 6, auto_len_mixed: 1, auto_len_all: 1 },
+            Pass { name: "2h-wide-len2", handles: 2, alphabet: wide, max_len: 2, max_total: 4, auto_len_mixed: 2, auto_len_all: 1 },
         ]
     } else {
         vec![
-            Pass { name: "2h-core", handles: 2, alphabet: core.clone(), max_ops: 3, max_txn: 2 },
-            Pass { name: "2h-point", handles: 2, alphabet: point, max_ops: 2, max_txn: 2 },
-            Pass { name: "2h-wide", handles: 2, alphabet: wide, max_ops: 2, max_txn: 2 },
-            Pass { name: "3h-core", handles: 3, alphabet: core, max_ops: 2, max_txn: 2 },
+            Pass { name: "2h-core-len4", handles: 2, alphabet: core.clone(), max_len: 4, max_total: 7, auto_len_mixed: 3, auto_len_all: 3 },
+            Pass { name: "2h-point-len4", handles: 2, alphabet: point, max_len: 4, max_total: 7, auto_len_mixed: 2, auto_len_all: 2 },
+            Pass { name: "2h-wide-len3", handles: 2, alphabet: wide, max_len: 3, max_total: 6, auto_len_mixed: 2, auto_len_all: 2 },
+            Pass { name: "3h-core-len2", handles: 3, alphabet: core, max_len: 2, max_total: 6, auto_len_mixed: 2, auto_len_all: 2 },
         ]
     }
 }
@@ -794,27 +880,10 @@ impl Check for C08 {
             if only_pass.map(|p| p != pass.name).unwrap_or(false) {
                 continue;
             }
-            let scripts = gen_scripts(&pass.alphabet, pass.max_ops, pass.max_txn);
+            let scripts = gen_scripts(&pass.alphabet, pass.max_len);
             let n = scripts.len();
-            let mut tuples: Vec<Vec<usize>> = vec![];
-            if pass.handles == 2 {
-                for i in 0..n {
-                    for j in i..n {
-                        tuples.push(vec![i, j]);
-                    }
-                }
-            } else {
-                for i in 0..n {
-                    for j in i..n {
-                        for k in j..n {
-                            tuples.push(vec![i, j, k]);
-                        }
-                    }
-                }
-            }
-            // fewest statements first
-            tuples.sort_by_key(|t| (t.iter().map(|&i| scripts[i].len()).sum::<usize>(), t.clone()));
-            rep.bound(&format!("pass:{}", pass.name), json!({"handles": pass.handles, "alphabet": pass.alphabet.iter().map(|o| St::Op(*o).name()).collect::<Vec<_>>(), "max_data_statements_per_script": pass.max_ops, "max_statements_in_transaction": pass.max_txn, "scripts": n, "script_tuples": tuples.len()}));
+            let tuples = pass.tuples(&scripts);
+            rep.bound(&format!("pass:{}", pass.name), json!({"handles": pass.handles, "alphabet": pass.alphabet.iter().map(|o| St::Op(*o).name()).collect::<Vec<_>>(), "max_statements_per_script": pass.max_len, "max_statements_of_all_handles": pass.max_total, "longest_autocommit_only_script_next_to_a_transaction": pass.auto_len_mixed, "longest_scripts_when_no_handle_runs_a_transaction": pass.auto_len_all, "scripts": n, "script_tuples": tuples.len()}));
             let mut total_merges = 0u64;
             for tup in &tuples {
                 let mine = ctx.mine(unit);
@@ -907,28 +976,15 @@ fn main() {
         for q in [true, false] {
             let ctx = Ctx { property: "C08".into(), tier: if q { vcore::Tier::Quick } else { vcore::Tier::Thorough }, seed: 0, worker: 0, workers: 1, scratch: "/tmp".into(), deadline: std::time::Instant::now(), opts: BTreeMap::new() };
             for p in passes(&ctx) {
-                let scripts = gen_scripts(&p.alphabet, p.max_ops, p.max_txn);
+                let scripts = gen_scripts(&p.alphabet, p.max_len);
                 let n = scripts.len();
                 let mut merges = 0u64;
-                let mut tuples = 0u64;
                 let binom = |a: usize, b: usize| -> u64 { (1..=b).fold(1u64, |acc, i| acc * (a + i) as u64 / i as u64) };
-                if p.handles == 2 {
-                    for i in 0..n {
-                        for j in i..n {
-                            tuples += 1;
-                            merges += binom(scripts[i].len(), scripts[j].len());
-                        }
-                    }
-                } else {
-                    for i in 0..n {
-                        for j in i..n {
-                            for k in j..n {
-                                tuples += 1;
-                                let (a, b, c) = (scripts[i].len(), scripts[j].len(), scripts[k].len());
-                                merges += binom(a, b) * binom(a + b, c);
-                            }
-                        }
-                    }
+                let tl = p.tuples(&scripts);
+                let tuples = tl.len();
+                for t in &tl {
+                    let l: Vec<usize> = t.iter().map(|&i| scripts[i].len()).collect();
+                    merges += if l.len() == 2 { binom(l[0], l[1]) } else { binom(l[0], l[1]) * binom(l[0] + l[1], l[2]) };
                 }
                 println!("{} {}: scripts {} tuples {} merges {}", if q { "quick" } else { "thorough" }, p.name, n, tuples, merges);
             }
